@@ -10,17 +10,20 @@ Definition codec_ok (compress : bytes -> bytes) (decompress : bytes -> res bytes
 
 (** for EVERY finite history over {write a record the schema accepts (any size, zero bytes included);
     write a record that does not fit; flush; write_block with a donor block in any valid layout; reopen in
-    append mode}, every abstract codec, every sync interval: flushing makes the stream read back as the
+    append mode with any new sync interval}, every abstract codec, every sync interval: flushing makes the stream read back as the
     submitted records ([small_run]: no block payload reaches 2^63 bytes, the limit of the framing) *)
 Theorem C07_history : forall compress decompress, codec_ok compress decompress ->
   forall e s n fuel, (n <= fuel)%nat -> forall sync, length sync = 16%nat -> Forall is_byte sync ->
   forall sync_interval meta ops hf,
-  meta_ok meta -> Forall (op_ok e s n) ops -> small_run compress sync sync_interval (wcreate sync meta) ops ->
+  meta_ok meta -> Forall (op_ok e s n) ops -> small_run compress sync (wcreate sync meta sync_interval) ops ->
   len (submitted ops) < 2 ^ 63 -> (3 <= hf)%nat ->
   exists nb, forall k, (nb < k)%nat ->
-    read_container decompress e s fuel hf k (out (flush compress sync (run compress sync sync_interval (wcreate sync meta) ops)))
+    read_container decompress e s fuel hf k (out (flush compress sync (run compress sync (wcreate sync meta sync_interval) ops)))
     = (submitted ops, EndOK).
-Proof. intros; eapply history_reads_back; eassumption. Qed.
+Proof.
+  intros compress decompress Hc e s n fuel Hf sync Hs Hsb si meta ops hf Hm Hok Hsm Hl Hhf.
+  exact (history_reads_back compress decompress Hc e s n fuel Hf sync Hs Hsb meta ops hf Hm Hok si Hsm Hl Hhf).
+Qed.
 Print Assumptions C07_history.
 
 (** the same after every prefix of the history (i.e. after each flush along the way) *)
@@ -28,50 +31,50 @@ Theorem C07_every_flush : forall compress decompress, codec_ok compress decompre
   forall e s n fuel, (n <= fuel)%nat -> forall sync, length sync = 16%nat -> Forall is_byte sync ->
   forall sync_interval meta ops1 ops2 hf,
   meta_ok meta -> Forall (op_ok e s n) (ops1 ++ OFlush :: ops2) ->
-  small_run compress sync sync_interval (wcreate sync meta) (ops1 ++ OFlush :: ops2) ->
+  small_run compress sync (wcreate sync meta sync_interval) (ops1 ++ OFlush :: ops2) ->
   len (submitted (ops1 ++ OFlush :: ops2)) < 2 ^ 63 -> (3 <= hf)%nat ->
   exists nb, forall k, (nb < k)%nat ->
-    read_container decompress e s fuel hf k (out (run compress sync sync_interval (wcreate sync meta) (ops1 ++ [OFlush])))
+    read_container decompress e s fuel hf k (out (run compress sync (wcreate sync meta sync_interval) (ops1 ++ [OFlush])))
     = (submitted ops1, EndOK).
 Proof.
   intros compress decompress Hc e s n fuel Hf sync Hs Hsb si meta ops1 ops2 hf Hm Hok Hsm Hl Hhf.
   assert (Hok1 : Forall (op_ok e s n) ops1) by (apply Forall_app in Hok; apply Hok).
   assert (Hl1 : len (submitted ops1) < 2 ^ 63).
   { unfold submitted in *. rewrite flat_map_app, len_app in Hl. pose proof (len_nonneg (flat_map submitted_of (OFlush :: ops2))). lia. }
-  assert (Hsm1 : small_run compress sync si (wcreate sync meta) ops1).
-  { clear - Hsm. revert Hsm. generalize (wcreate sync meta). induction ops1 as [|o l IH]; intros st H; cbn [app small_run] in *.
+  assert (Hsm1 : small_run compress sync (wcreate sync meta si) ops1).
+  { clear - Hsm. revert Hsm. generalize (wcreate sync meta si). induction ops1 as [|o l IH]; intros st H; cbn [app small_run] in *.
     - destruct H as [H _]. exact H.
     - destruct H as [H1 H2]. split; [exact H1|apply IH; exact H2]. }
-  destruct (history_reads_back compress decompress Hc e s n fuel Hf sync Hs Hsb si meta ops1 hf Hm Hok1 Hsm1 Hl1 Hhf) as [nb H].
+  destruct (history_reads_back compress decompress Hc e s n fuel Hf sync Hs Hsb meta ops1 hf Hm Hok1 si Hsm1 Hl1 Hhf) as [nb H].
   exists nb. intros k Hk. specialize (H k Hk).
   unfold run in *. rewrite fold_left_app. cbn [fold_left wstep]. exact H.
 Qed.
 Print Assumptions C07_every_flush.
 
 (** a write that fails contributes nothing: the state is unchanged *)
-Theorem C07_failed_write_noop : forall compress sync sync_interval st, wstep compress sync sync_interval st OWriteBad = st.
+Theorem C07_failed_write_noop : forall compress sync st, wstep compress sync st OWriteBad = st.
 Proof. reflexivity. Qed.
 Print Assumptions C07_failed_write_noop.
 
 (** header (schema, codec, marker, metadata) and everything already written never change: every
     operation, reopen included, only appends *)
-Theorem C07_append_only : forall compress sync sync_interval ops st,
-  exists x, out (run compress sync sync_interval st ops) = out st ++ x.
+Theorem C07_append_only : forall compress sync ops st,
+  exists x, out (run compress sync st ops) = out st ++ x.
 Proof. intros. apply run_appends. Qed.
 Print Assumptions C07_append_only.
 
 Theorem C07_header_kept : forall compress sync sync_interval meta ops,
-  exists x, out (run compress sync sync_interval (wcreate sync meta) ops) = header_bytes meta sync ++ x.
-Proof. intros. exact (run_appends compress sync sync_interval ops (wcreate sync meta)). Qed.
+  exists x, out (run compress sync (wcreate sync meta sync_interval) ops) = header_bytes meta sync ++ x.
+Proof. intros. exact (run_appends compress sync ops (wcreate sync meta sync_interval)). Qed.
 Print Assumptions C07_header_kept.
 
 (** non-vacuity: write, failed write, write, flush, donor block, reopen, write -- null codec, interval 3 *)
 Example C07_example :
   let sync := [1;2;3;4;5;6;7;8;9;10;11;12;13;14;15;16] in
   let ops := [OWrite (AInt 1); OWriteBad; OWrite (AInt 300); OFlush;
-              OBlock [LLeaf (AInt 7); LLeaf (AInt 8)]; OReopen; OWrite (AInt (-1))] in
+              OBlock [LLeaf (AInt 7); LLeaf (AInt 8)]; OReopen 100; OWrite (AInt (-1))] in
   Forall (op_ok [] SLong 2) ops /\
-  read_container Ok [] SLong 5 5 9 (out (flush (fun b => b) sync (run (fun b => b) sync 3 (wcreate sync []) ops)))
+  read_container Ok [] SLong 5 5 9 (out (flush (fun b => b) sync (run (fun b => b) sync (wcreate sync [] 3) ops)))
   = ([AInt 1; AInt 300; AInt 7; AInt 8; AInt (-1)], EndOK) /\ submitted ops = [AInt 1; AInt 300; AInt 7; AInt 8; AInt (-1)].
 Proof.
   split; [|vm_compute; split; reflexivity].
